@@ -691,6 +691,50 @@ def told_flags(acks):
     return out
 
 
+def told_messages(acks):
+    """The messages the server listed for the selected mailbox in the read-only `FETCH 1:* (UID <tag header>)` that
+    ends every step: -> [(ack number, mailbox, [tags])].  Like told_flags() this comes from responses, not from a
+    recovered copy: an acknowledged APPEND/COPY whose message, or an acknowledged EXPUNGE whose removal, never
+    reaches the disk is missing from every snapshot alike, but not from what the client was told."""
+    out = []
+    cur = None
+    for a in acks:
+        line = a["line"]
+        ms = re.match(r"SELECT (\S+)", line)
+        if ms:
+            cur = ms.group(1) if a["status"] == "OK" else None
+            continue
+        if line.startswith("UNSELECT"):
+            cur = None
+            continue
+        if cur is None or a["status"] != "OK" or not line.startswith("FETCH 1:* (UID BODY.PEEK[HEADER.FIELDS"):
+            continue
+        try:
+            rs, _, _ = wire.parse_stream(a["raw"].encode("latin-1"), strict=False)
+        except Exception:
+            continue
+        tags = []
+        okay = True
+        for x in rs:
+            if x.kind == "untagged" and x.name == "FETCH":
+                try:
+                    it = wire.fetch_items(x)
+                except wire.Malformed:
+                    okay = False
+                    break
+                h = it.get("BODY[HEADER.FIELDS (X-VF-TAG)]")
+                if h is None:
+                    continue
+                mt = re.search(rb"X-VF-Tag:\s*(\S+)", bytes(h), re.I)
+                if mt is None:
+                    okay = False
+                    break
+                tags.append(mt.group(1).decode())
+        if okay:
+            out.append((a["ack"], "inbox" if cur.upper() == "INBOX" else cur, tags, line))
+    return out
+
+
 PACK_FINDING = "pack-not-crash-safe"
 
 
@@ -784,6 +828,23 @@ def execute(trace) -> CaseResult:
                       f"the server had told the client {fl}", kk, line.split(" ")[0] + "-told")
         if ntold:
             res.labels.append("told-flags-checked")
+        from collections import Counter
+
+        nlists = 0
+        for i, b, tags, line in (told_messages(acks) if kind == "history" else []):
+            g = (S.get(i) or {}).get("boxes", {}).get(b)
+            if not g or "error" in g:
+                continue
+            nlists += 1
+            have = Counter(m[1] for m in g["msgs"] if m[1] is not None)
+            want = Counter(tags)
+            if have != want:
+                kk = max(1, min(K, acks[i - 1]["effects"][1] + 1)) if 0 < i <= len(acks) else 1
+                miss, extra = sorted((want - have).elements()), sorted((have - want).elements())
+                v("C11.told.messages", f"crash right after command {i} (the listing of {b!r}) was acknowledged: the server had listed messages {sorted(tags)}; after the restart "
+                  + (f"{miss} are missing" if miss else "") + (" and " if miss and extra else "") + (f"{extra} are there although they had been removed" if extra else ""), kk, "listing-told")
+        if nlists:
+            res.labels.append("told-messages-checked")
         windows = pack_windows((done or {}).get("pack", []))
         ks = list(range(1, K + 1))
         if trace.get("stride", 1) > 1:
